@@ -37,9 +37,44 @@ func isIterProducerCall(callee *types.Func) bool {
 	return false
 }
 
+// iterWrapper: a function written since the reference that advances an iterator itself (calls a producer) and returns
+// an error: its callers consume the producer's error through it, so they are consumers too.
+func iterWrapper(c *Ctx, callee *types.Func) bool {
+	if callee == nil || !inModule(callee) || !isNewFunc(FuncID(callee)) {
+		return false
+	}
+	fd := c.Decl(callee)
+	p := c.DeclPkg(callee)
+	if fd == nil || fd.Body == nil || p == nil {
+		return false
+	}
+	sig := callee.Type().(*types.Signature)
+	hasErr := false
+	for i := 0; i < sig.Results().Len(); i++ {
+		if isErrorType(sig.Results().At(i).Type()) {
+			hasErr = true
+		}
+	}
+	if !hasErr {
+		return false
+	}
+	wraps := false
+	ast.Inspect(fd.Body, func(n ast.Node) bool {
+		if call, ok := n.(*ast.CallExpr); ok {
+			if f := Callee(p.TypesInfo, call); f != nil && isIterProducerCall(f) {
+				wraps = true
+			}
+		}
+		return !wraps
+	})
+	return wraps
+}
+
 func runC05R1(c *Ctx, r *Rep) {
 	a := newErrAnalyzer(c)
-	sites := sitesCalling(c, func(callee *types.Func, ci ssa.CallInstruction) bool { return isIterProducerCall(callee) })
+	sites := sitesCalling(c, func(callee *types.Func, ci ssa.CallInstruction) bool {
+		return isIterProducerCall(callee) || iterWrapper(c, callee)
+	})
 	for _, s := range sites {
 		id := ssaFuncID(s.fn)
 		r.analysed(id)
